@@ -38,7 +38,7 @@ POSSIBILITY OF SUCH DAMAGE.
 NTR:
 '''
 
-from ..basis import Params, SearchFacade, SearchResults
+from ..basis import Params, Range, SearchFacade, SearchResults
 from .enums import Table
 from .state import DBI
 from .util import dissect, prime_keys
@@ -49,11 +49,19 @@ class SearchImplementation(SearchFacade):
         '''return all of the prime keys that match the constraints'''
         # alignment of keys       runid  tgt    task   alg     sv     val
         constraints: list[set] = [set(), set(), set(), set(), set(), set()]
+        # run IDs are the union of individual IDs and ranges; a Range inside a
+        # set never equals an int, so ranges are kept apart and tested with in
+        ranges: list[Range] = []
+        rids: set[int] = set()
         results = set()
         for k, v in filter(lambda t: bool(t[1]), parameters._asdict().items()):
             if k == 'runids':
-                constraints[_align(k)].update(v)
-                constraints[_align(k)].discard(-1)
+                for rid in v:
+                    if isinstance(rid, Range):
+                        ranges.append(rid)
+                    else:
+                        rids.add(rid)
+                rids.discard(-1)
             else:
                 table = DBI().tables[_table_index(k)]
                 for name in v:
@@ -61,6 +69,11 @@ class SearchImplementation(SearchFacade):
                     subvalues = subtable.values() if subtable else [-1]
                     constraints[_align(k)].update(subvalues)
         for pk in prime_keys(DBI().tables.prime):
+            runid = pk[_align('runids')]
+            if (rids or ranges) and not (
+                runid in rids or any(runid in r for r in ranges)
+            ):
+                continue
             if all(not c or e in c for c, e in zip(constraints, pk)):
                 results.add(pk[:keylen])
         return sorted(results)
